@@ -9,7 +9,7 @@ EXPLANATION = (
     "pipelines of `left` and `right` (translation -> [simplify] -> gamma -> [simplify] -> [break]) are extracted and must be identical up to "
     "renaming, contain gamma exactly once and unconditionally, and select mu / tau-star by the same flag. RW-2: portfolios composed before gamma "
     "use only INTUITIONISTIC and HT; CLASSIC appears only after. TPL: transition(p) evaluates to forall free(hp) (here(p(X..)) -> there(p(X..))) "
-    "and the predicate set is left.predicates() extended by right.predicates(). Decomposition dispatch per strategy. SHARED: the order of the file arguments decides left / right (C20's single-pass and role obligations); IDENT: predicates are set elements by symbol and arity (derived equality / order).")
+    "and the predicate set is left.predicates() extended by right.predicates(). Decomposition dispatch per strategy. SHARED: the order of the file arguments decides left / right (C20's single-pass and role obligations); IDENT: predicates are set elements by symbol and arity (derived equality / order). SHARED: every member of the simplification portfolios is what its table says (C07's RW-1 / RW-2 obligations).")
 UNDECIDED = ["that gamma-equivalence with the transition axioms coincides with strong equivalence (Pearce; Heuer) — literature",
              "truth of the emitted formulas in models", "gamma itself: C05; problem plumbing: C09 / C19"]
 ASSUMPTIONS = ["the HT/intuitionistic validity of the members of INTUITIONISTIC and HT (decided separately under C07)"]
